@@ -118,6 +118,7 @@ type apiAgg struct {
 	Rollbacks   int
 	Reopens     int
 	ErrProbes   int
+	Backups     int
 	Samples     []string
 	NonTrivial  map[string]bool
 	DepthByPS   map[string]int // "ps=<page size> depth=<d>" -> programs
@@ -153,6 +154,7 @@ func (a *apiAgg) add(cs *apiCase, p *gen.Program, nontrivial bool) {
 	a.Rollbacks += st.Rollbacks
 	a.Reopens += st.Reopens
 	a.ErrProbes += st.ErrProbes
+	a.Backups += st.Backups
 	if nontrivial {
 		a.NonTrivial[cs.FP] = true
 	}
@@ -177,6 +179,7 @@ func (a *apiAgg) coverage(rule string) map[string]any {
 		"rollbacks":                a.Rollbacks,
 		"reopens":                  a.Reopens,
 		"error_probes":             a.ErrProbes,
+		"backups_decoded_by_D":     a.Backups,
 		"programs_per_transition":  a.Transitions,
 		"programs_by_page_size_and_max_tree_depth": a.DepthByPS,
 		"distinct_fingerprints_all":                len(a.FPs),
